@@ -171,6 +171,9 @@ func drawDataset(x *simkit.Exec, o dataOpts) *dataset {
 				step := w / int64(ns+1)
 				var c chunkSpec
 				t := lo + int64(x.Draw("data.t0", int(step)))
+				if x.Bool("data.t0exact", 1, 4) {
+					t = lo // a sample exactly on the window start (for k=0: on the block's MinTime)
+				}
 				for j := 0; j < ns; j++ {
 					c.Samples = append(c.Samples, sample{T: t, V: float64(x.Draw("data.v", 7)) + float64(bi)*0.5})
 					t += 1 + int64(x.Draw("data.dt", int(step)))
